@@ -319,7 +319,27 @@ fn all_acked(log: &[RequestLog], want: &BTreeMap<Signal, Vec<u64>>, signals: &[S
 }
 
 pub fn run(sc: &Scenario) -> Observed {
-    let c = Collector::start();
+    let started = Collector::try_start().and_then(|c| {
+        if sc.wire == Wire::Grpc {
+            c.ensure_grpc()?;
+        }
+        Ok(c)
+    });
+    let c = match started {
+        Ok(c) => c,
+        Err(e) => {
+            return Observed {
+                harness_problem: Some(e),
+                emitted: BTreeMap::new(),
+                early_flush: None,
+                flush: None,
+                outage_flush: None,
+                log_at_flush: Vec::new(),
+                log_final: Vec::new(),
+                settled: false,
+            }
+        }
+    };
     c.keep_payloads(false);
     let healthy = sc.healthy();
     for s in sc.configured() {
